@@ -31,6 +31,7 @@ const (
 	keyN1 = "C10/applyupdate-unmarshaljson-tree-height-index"
 	keyN2 = "C10/revertupdate-unmarshaljson-tree-height-index"
 	keyN3 = "C10/parsecurrency-rat-exponent-amplification"
+	keyN4 = "C10/spendpolicy-unmarshaljson-unbounded-depth"
 )
 
 func le64(b []byte, o int) (uint64, bool) {
@@ -148,6 +149,35 @@ func currencyAmplifier(s string) bool {
 	return err != nil || mag >= 1000
 }
 
+// n4Depth: the class of N4 is "JSON text that mentions thresh and nests brackets at least
+// this deep" (a threshold policy level costs three bracket levels; the quadratic cost
+// crosses the allocation budget at about 830 policy levels = 2500 bracket levels).
+const n4Depth = 1500
+
+// bracketDepth is the maximum nesting of [ and { outside strings.
+func bracketDepth(s []byte) int {
+	depth, deepest, inStr := 0, 0, false
+	for i := 0; i < len(s); i++ {
+		switch c := s[i]; {
+		case inStr:
+			if c == '\\' {
+				i++
+			} else if c == '"' {
+				inStr = false
+			}
+		case c == '"':
+			inStr = true
+		case c == '[' || c == '{':
+			if depth++; depth > deepest {
+				deepest = depth
+			}
+		case c == ']' || c == '}':
+			depth--
+		}
+	}
+	return deepest
+}
+
 // preClassText: N3 is an amplification (an 11-byte string costs gigabytes of
 // cumulative allocation and seconds of CPU; a few hundred of them in one JSON document
 // would stall a worker), so its class is decided before execution: the text, or any
@@ -155,6 +185,9 @@ func currencyAmplifier(s string) bool {
 func preClassText(in []byte) string {
 	if currencyAmplifier(string(in)) {
 		return keyN3
+	}
+	if bytes.Contains(in, []byte("thresh")) && bracketDepth(in) >= n4Depth {
+		return keyN4
 	}
 	if bytes.IndexByte(in, '"') >= 0 {
 		for _, t := range jsonTokens(in) {
@@ -176,6 +209,7 @@ func encLE(vs ...uint64) []byte {
 
 // probeAlloc fails if f panics or allocates more than the budget for an n-byte input.
 func probeAlloc(what string, n int, f func()) error {
+	callTest.Store("TestKnown")
 	r := measure(f)
 	return r.verdict("", what, n, 0)
 }
@@ -249,5 +283,10 @@ func TestKnown(t *testing.T) {
 		js := []byte(`"` + in + `"`)
 		return probeAlloc("Currency JSON", len(js), func() { json.Unmarshal(js, new(types.Currency)) })
 	})
-}
 
+	stats.ProbeKnown(t, keyN4, "types.SpendPolicy.UnmarshalJSON recurses through json.RawMessage without the depth limit the binary decoder has (maxPolicyDepth): every threshold level copies and re-validates the rest of the document, so cost grows with depth x size — a 42 KB policy nested 1000 deep allocates 105 MB (2500 bytes per input byte), 140 KB nested 3333 deep (encoding/json's own limit) about 1.2 GB and seconds of CPU", func() error {
+		d := 1000
+		js := []byte(strings.Repeat(`{"type":"thresh","policy":{"n":1,"of":[`, d) + `{"type":"above","policy":0}` + strings.Repeat(`]}}`, d))
+		return probeAlloc(fmt.Sprintf("SpendPolicy JSON nested %d deep", d), len(js), func() { json.Unmarshal(js, new(types.SpendPolicy)) })
+	})
+}
